@@ -27,7 +27,8 @@ Definition rm (d : N) (l : list N) : list N := filter (fun k => negb (k =? d)) l
 Definition add (d : N) (l : list N) : list N := if mem d l then l else d :: l.
 
 (* registry + datastore tables *)
-Record db := mkdb { ds : list N; loc : list N; recs : list N; trash : list N; tags : list N; certs : list N; dims : list N }.
+(* xf: datasets registered by transfer_from (they carry the dataset id of the SOURCE repository: transferring them again is a no-op) *)
+Record db := mkdb { ds : list N; loc : list N; recs : list N; trash : list N; tags : list N; certs : list N; dims : list N; xf : list N }.
 
 Inductive frame := FReal (snap : db) | FSave (snap : db) | FNoop.
 Inductive undo := URm (d : N) | UBack (d v : N).
@@ -53,13 +54,14 @@ Definition set_dcache x s := mkst (cur s) (sql s) (ptr s) (fs s) (ext s) x (fuse
 Definition set_fuse x s := mkst (cur s) (sql s) (ptr s) (fs s) (ext s) (dcache s) x (hard s) (cfault s).
 Definition set_cfault x s := mkst (cur s) (sql s) (ptr s) (fs s) (ext s) (dcache s) (fuse s) (hard s) x.
 
-Definition up_ds f (d : db) := mkdb (f (ds d)) (loc d) (recs d) (trash d) (tags d) (certs d) (dims d).
-Definition up_loc f (d : db) := mkdb (ds d) (f (loc d)) (recs d) (trash d) (tags d) (certs d) (dims d).
-Definition up_recs f (d : db) := mkdb (ds d) (loc d) (f (recs d)) (trash d) (tags d) (certs d) (dims d).
-Definition up_trash f (d : db) := mkdb (ds d) (loc d) (recs d) (f (trash d)) (tags d) (certs d) (dims d).
-Definition up_tags f (d : db) := mkdb (ds d) (loc d) (recs d) (trash d) (f (tags d)) (certs d) (dims d).
-Definition up_certs f (d : db) := mkdb (ds d) (loc d) (recs d) (trash d) (tags d) (f (certs d)) (dims d).
-Definition up_dims f (d : db) := mkdb (ds d) (loc d) (recs d) (trash d) (tags d) (certs d) (f (dims d)).
+Definition up_ds f (d : db) := mkdb (f (ds d)) (loc d) (recs d) (trash d) (tags d) (certs d) (dims d) (xf d).
+Definition up_loc f (d : db) := mkdb (ds d) (f (loc d)) (recs d) (trash d) (tags d) (certs d) (dims d) (xf d).
+Definition up_recs f (d : db) := mkdb (ds d) (loc d) (f (recs d)) (trash d) (tags d) (certs d) (dims d) (xf d).
+Definition up_trash f (d : db) := mkdb (ds d) (loc d) (recs d) (f (trash d)) (tags d) (certs d) (dims d) (xf d).
+Definition up_tags f (d : db) := mkdb (ds d) (loc d) (recs d) (trash d) (f (tags d)) (certs d) (dims d) (xf d).
+Definition up_certs f (d : db) := mkdb (ds d) (loc d) (recs d) (trash d) (tags d) (f (certs d)) (dims d) (xf d).
+Definition up_dims f (d : db) := mkdb (ds d) (loc d) (recs d) (trash d) (tags d) (certs d) (f (dims d)) (xf d).
+Definition up_xf f (d : db) := mkdb (ds d) (loc d) (recs d) (trash d) (tags d) (certs d) (dims d) (f (xf d)).
 Definition on_cur (f : db -> db) (s : st) : st := set_cur (f (cur s)) s.
 
 (* the four repairs, switchable so that "reverting a fix breaks a theorem" can be stated *)
@@ -162,7 +164,7 @@ Definition load_dc : act := upd (fun s => match dcache s with None => set_dcache
 Inductive mode := Copy | Move.
 Inductive op :=
   | Put (d v : N) | Ingest (m : mode) (d : N) | Assoc (d : N) | Untag (d : N) | Cert (d : N)
-  | InsDim (g : N) | Expand (g : N) | Purge (d : N) | Unstore (d : N) | EmptyTrash.
+  | InsDim (g : N) | Expand (g : N) | Purge (d : N) | Unstore (d : N) | EmptyTrash | Transfer (d : N).
 
 Definition has_ds d (s : st) := mem d (ds (cur s)).
 Definition stored_rows d := upd (on_cur (fun x => up_recs (add d) (up_loc (add d) x))).
@@ -223,7 +225,7 @@ Definition do_empty_trash (c : cfg) : act :=
            else (with_reg false false (ev (upd (on_cur (up_recs (fun l => filter (fun k => negb (mem k tg)) l))))) ;;
                  with_reg false false (ev (upd (on_cur (up_trash (fun l => filter (fun k => negb (mem k tg)) l))))))) s1)) s)).
 
-Definition remove_ds d := upd (on_cur (fun x => up_certs (rm d) (up_tags (rm d) (up_ds (rm d) x)))).
+Definition remove_ds d := upd (on_cur (fun x => up_xf (rm d) (up_certs (rm d) (up_tags (rm d) (up_ds (rm d) x))))).
 
 Definition do_purge (c : cfg) (d : N) : act :=
   ev (guard (has_ds d)) ;;                                                           (* the caller resolves the ref *)
@@ -236,6 +238,20 @@ Definition do_unstore (c : cfg) (d : N) : act :=
   ev (guard (has_ds d)) ;;
   with_ds c (with_reg false (fix_dc c) (do_trash c d)) ;;
   do_empty_trash c.
+
+(* Butler.transfer_from(source_butler, [ref], transfer="copy"): the source repository holds a dataset for every slot
+   (content src_content d); registry._importDatasets is a no-op for a dataset id that is already there, a conflict for
+   the same data ID under another id; FileDatastore.transfer_from (@transactional) skips a dataset that already has a
+   record, otherwise copies to a temporary name, renames into place, registers the undo, cleans up, inserts the rows *)
+Definition src_content (d : N) : N := 200 + d.
+
+Definition do_transfer (c : cfg) (d : N) : act :=
+  butler_txn c (
+    ev (guard (fun s => negb (has_ds d s) || mem d (xf (cur s)))) ;;
+    upd (on_cur (fun x => up_xf (add d) (up_ds (add d) x))) ;;
+    with_ds c (fun s => if mem d (recs (cur s)) then (s, Normal) else
+      (ev ret ;; ev (upd (fun s => set_fs (fset d (src_content d) (fs s)) s)) ;; reg_undo (URm d) ;; ev ret ;;
+       ev (stored_rows d)) s)).
 
 Definition exec_op (c : cfg) (o : op) : act :=
   match o with
@@ -251,6 +267,7 @@ Definition exec_op (c : cfg) (o : op) : act :=
   | Purge d => do_purge c d
   | Unstore d => do_unstore c d
   | EmptyTrash => do_empty_trash c
+  | Transfer d => do_transfer c d
   end.
 
 Inductive prog := POp (o : op) | PBlock (ps : list prog) | PTry (p : prog) | PFail.
@@ -271,5 +288,5 @@ Fixpoint seqp (c : cfg) (l : list prog) : act := match l with [] => ret | q :: r
 Fixpoint run_pre (c : cfg) (l : list prog) (s : st) : st :=
   match l with [] => s | p :: r => run_pre c r (fst (exec c p s)) end.
 
-Definition db0 := mkdb [] [] [] [] [] [] [].
+Definition db0 := mkdb [] [] [] [] [] [] [] [].
 Definition init (e : files) : st := mkst db0 [] [] [] e None None false false.
